@@ -1145,7 +1145,10 @@ Error CodeHolder::flatten() noexcept {
       prev->_virtual_size = offset - prev->_offset;
     }
 
-    prev = section;
+    // An empty section never receives the padding - it would become non-empty at a misaligned offset.
+    if (real_size) {
+      prev = section;
+    }
     offset += real_size;
   }
 
